@@ -20,7 +20,6 @@ var Corpus = [][]string{
 		"adv 100000000", "in 1", "adv 1", "adv 100000000", "in 1", "adv 6000000000"},
 }
 
-
 // WildCorpus (C07, fixed): the attribute values that crashed the original code; run first in
 // wild mode.
 var WildCorpus = [][]string{
